@@ -88,7 +88,7 @@ func specMin(a, b int64) int64 {
 // precondition stated where the decoded request first exists: Subscription-Id and MSCC always,
 // Requested-Service-Unit for reservations and refunds, Used-Service-Unit for termination debits;
 // amounts are in 0..2^63-1 as the property states.
-//@ func handleCCR$1 [C07]
+//@ func handleCCR$1 [C07 C17]
 //@   requires c != nil && m != nil
 //@   assume "switch ccr.SubscriptionId.SubscriptionIdType": ccr.SubscriptionId != nil && ccr.MultipleServicesCreditControl != nil
 //@   assume "switch ccr.SubscriptionId.SubscriptionIdType": (ccr.RequestedAction == charging_datatype.REFUND_ACCOUNT || specIsReserve(&ccr)) ==> ccr.MultipleServicesCreditControl.RequestedServiceUnit != nil && int64(ccr.MultipleServicesCreditControl.RequestedServiceUnit.CCTotalOctets) >= 0
